@@ -58,6 +58,18 @@ ObsChecks(o) == <<
         "an item was marked as seen on the DA layer at a DA height where no blob signed by the proposer is">>,
     <<"C03.FinalizedGenuine", \A h \in finals : h <= top /\ \E d \in onDA : d.kind = "hdr" /\ d.h = h,
         "the execution layer was asked to finalize a block whose genuine header is not on the DA layer">>,
+    \* C07 on a full node (the same facts as C03.InclSound / MarkSound / FinalizedGenuine, under the C07 clauses)
+    <<"C07.FullInclBounds", MaxOf(o.incl, o.durIncl) <= o.height \/ ~o.up, "a full node reports a DA-included height above its chain height">>,
+    <<"C07.FullInclMonotone", o.up => o.incl >= lastIncl, "the DA-included height a full node reports decreased (also across restarts)">>,
+    <<"C07.FullInclSound", \A h \in ih .. MaxOf(o.incl, o.durIncl) : h <= top =>
+          /\ (\E d \in onDA : d.kind = "hdr" /\ d.h = h)
+          /\ (IsEmptyBlk(h) \/ (\E d \in onDA : d.kind = "data" /\ C(d.h).txs = C(h).txs)),
+        "a full node reports a block DA-included although its header / data was not observed on the DA layer">>,
+    <<"C07.FullFinalizeBeforeReport", \A h \in ih .. o.incl : h \in finals,
+        "a full node reports a DA-included height the execution layer was not asked to finalize first">>,
+    <<"C07.FullRecordedDAHeights", /\ \A i \in 1 .. Len(o.mH) : \E d \in onDA : d.kind = "hdr" /\ d.h = o.mH[i].h /\ d.dah = o.mH[i].dah
+                                  /\ \A i \in 1 .. Len(o.mD) : \E d \in onDA : d.kind = "data" /\ d.dah = o.mD[i].dah /\ C(d.h).txs = C(o.mD[i].h).txs,
+        "the DA height recorded for a block is not a height at which its blob is">>,
     <<"C02.HeightMonotone", o.height >= lastH, "chain height decreased">>,
     <<"C02.NoOvershoot", o.height <= top, "chain height beyond the proposer's chain">>,
     <<"C02.AppliedWhatArrived", (o.up /\ o.tag \in {"deliver", "settled"}) => (AliasStall(o.height) \/ \A h \in ih .. top : Complete(Rcvd(o), h) => o.height >= h),
@@ -133,7 +145,8 @@ TLight ==
     /\ Is("LightOffer") /\ Adv
     /\ viol' = viol \o Failed(<<
           <<"C03.LightOnlyGenuine", e.res = "admitted" => e.sig = "P" /\ e.hash = C(e.h).hash, "a header not signed by the proposer's key was admitted to the header store of a header-only node">>,
-          <<"C03.LightFollows", e.class = "genuine" => e.res = "admitted", "third-party material prevented the header-only node from admitting the proposer's header">>
+          <<"C03.LightFollows", e.class = "genuine" => e.res = "admitted", "third-party material prevented the header-only node from admitting the proposer's header">>,
+          <<"C03.LightPanic", e.res # "panic", "a header offered over P2P made the header-only node's decode / validate / verify path panic">>
           >>, l, run)
     /\ UNCHANGED <<pf, run, ih, chain, top, phase, got, lastH, nextExec, fresh, maxExec, onDA, finals, cur, chunks, cleanStop, lastIncl>>
 
@@ -195,6 +208,9 @@ TQuiesce ==
           <<"C03.Converged", (e.up /\ e.height = e.top) \/ (e.up /\ AliasStall(e.height)), "third-party material prevented the node from following the proposer's chain">>,
           <<"C05.InclusionResumes", (e.up /\ e.height = e.top /\ (\A h \in ih .. top : \E d \in onDA : d.kind = "hdr" /\ d.h = h)) => lastIncl = e.top,
               "every block is on the DA layer and applied, but the node's DA-included height did not reach the chain height">>,
+          <<"C07.FullEventuallyIncluded", (e.up /\ (\A h \in ih .. top : (\E d \in onDA : d.kind = "hdr" /\ d.h = h) /\ (IsEmptyBlk(h) \/ \E d \in onDA : d.kind = "data" /\ d.h = h)))
+                                               => (lastIncl = e.top \/ AliasStall(e.height) \/ pf),
+              "both parts of every block are on the DA layer but the full node's DA-included height did not reach the chain height">>,
           <<"C02.Converged.alias", ~(e.up /\ e.height < e.top /\ AliasStall(e.height)), "stuck below a block whose tx list equals another block's (data de-duplicated by commitment)">>
           >>, l, run)
     /\ UNCHANGED <<pf, run, ih, chain, top, phase, got, lastH, nextExec, fresh, maxExec, onDA, finals, cur, chunks, cleanStop, lastIncl>>
